@@ -812,8 +812,25 @@ class G:
                 hx = [absn.tok(h[0], h[1], 'N' if isinstance(h, hpack.NeverIndexedHeaderTuple) else 't') for h in hs]
                 ok = True
             except Exception:
+                # the fields in front of the representation the decoder refuses (the longest prefix of the block that decodes):
+                # the decoder checks the size of the list after every field, so they matter when the list cap is small
                 hx, ok = [], False
+                for k in range(len(blk) - 1, 0, -1):
+                    try:
+                        hs = hpack.Decoder(max_header_list_size=1 << 20).decode(blk[:k], raw=True)
+                    except Exception:
+                        continue
+                    if any(not all(32 <= c < 127 for c in h[0] + h[1]) for h in hs):
+                        hs = None
+                    break
+                else:
+                    hs = []
+                if hs is None:
+                    continue
+                hx = [absn.tok(h[0], h[1], 'N' if isinstance(h, hpack.NeverIndexedHeaderTuple) else 't') for h in hs]
             out = dict(fr, h='x', hx=hx, blk='ok' if ok else 'bad', bx=blk.hex(), tsu=[])
+            if not ok:
+                out['bp'] = True
             out.pop('frag', None)
             return out
         return fr
